@@ -64,6 +64,23 @@ pub open spec fn mod_deps_prefer_fc(m: Module) -> Seq<Dependency> {
         _ => Seq::empty(),
     }
 }
+pub open spec fn mod_dep_keys(m: Module) -> Seq<String> {
+    match m {
+        Module::Js(x) => im_keys(x.dependencies),
+        Module::Wasm(x) => im_keys(x.dependencies),
+        _ => Seq::empty(),
+    }
+}
+pub open spec fn mod_dep_keys_prefer_fc(m: Module) -> Seq<String> {
+    match m {
+        Module::Js(x) => match x.fast_check {
+            Some(FastCheckTypeModuleSlot::Module(fc)) => im_keys(fc.dependencies),
+            _ => im_keys(x.dependencies),
+        },
+        Module::Wasm(x) => im_keys(x.dependencies),
+        _ => Seq::empty(),
+    }
+}
 pub open spec fn walk_deps(o: WOpts, m: Module) -> Seq<Dependency> {
     if inc_types(o.kind) && checkable(o.check_js, mod_specifier(m), mod_media_type(m)) && o.prefer_fc { mod_deps_prefer_fc(m) } else { mod_deps(m) }
 }
